@@ -19,6 +19,11 @@ def make_scenarios(ctx, count):
         netb.mappers, netb.bridges = neta.mappers, neta.bridges      # the same mapper talks to both
         m = rng.randrange(len(neta.mappers))
         bridged = rng.random() < 0.3
+        b_is_bridge = rng.random() < 0.25       # the mapper reaches A through B: A sees the mapper's frames with Ethernet source B
+        if b_is_bridge:
+            neta.bridges = list(neta.bridges)
+            neta.bridges[m] = b
+            netb.bridges = list(netb.bridges)
         s = H.Scenario("p%d" % i)
         s.iface(0, **H.iface_kw(cfa)).iface(1, **H.iface_kw(cfb)).glob(**G.global_kw(G.rand_global(rng, icon_size=10)))
         s.add("OPT sleep=0")
@@ -28,8 +33,8 @@ def make_scenarios(ctx, count):
             s.frame(ifc, fr)
             ops.append((tag, ifc, fr))
         gen = rng.choice([1, 7, 0x1234])
-        feed(0, G.f_discover(rng, neta, m=m, tos=0, bridged=bridged, gen=gen), "F")
-        feed(1, G.f_discover(rng, netb, m=m, tos=0, bridged=bridged, gen=gen), "F")
+        feed(0, G.f_discover(rng, neta, m=m, tos=0, bridged=bridged or b_is_bridge, gen=gen), "F")
+        feed(1, G.f_discover(rng, netb, m=m, tos=0, bridged=bridged and not b_is_bridge, gen=gen), "F")
         seq = rng.randint(1, 50000)
         capb = G.cap_qresp(cfb["mtu"])
         for rnd in range(rng.randint(1, 3)):
@@ -57,17 +62,17 @@ def make_scenarios(ctx, count):
                 for (_k, _p, s_i, d_i) in rng.sample(descs, min(len(descs), rng.randint(1, 3))):
                     feed(1, W.probe(b, s_i, b, third, train=rng.random() < 0.5), "F")
             seq += 1
-            feed(0, W.emit(a, neta.mappers[m], seq, descs, eth_src=neta.bridges[m] if bridged else None), "EMIT")
+            feed(0, W.emit(a, neta.mappers[m], seq, descs, eth_src=neta.bridges[m] if (bridged or b_is_bridge) else None), "EMIT")
             s.add("DELIVER 0 1")
             ops.append(("DELIVER", descs))
             for _ in range(rng.randint(0, 2)):
-                feed(1, G.f_discover(rng, netb, m=m, tos=0, bridged=bridged, gen=gen), "F")
+                feed(1, G.f_discover(rng, netb, m=m, tos=0, bridged=bridged and not b_is_bridge, gen=gen), "F")
             nq = (n + 8) // max(1, capb) + 2
             for _ in range(nq):
                 seq += 1
-                feed(1, G.f_query(rng, netb, m, seq=seq, bridged=bridged), "QUERY")
+                feed(1, G.f_query(rng, netb, m, seq=seq, bridged=bridged and not b_is_bridge), "QUERY")
             ops.append(("ROUND-END",))
-        s.meta = dict(ops=ops, a=a, b=b)
+        s.meta = dict(ops=ops, a=a, b=b, b_is_bridge=b_is_bridge)
         scns.append(s)
     return scns
 
@@ -107,8 +112,10 @@ def monitor(scn, sobj, rep, sf, ck):
                 for e in inp.ev:
                     if e[0] == "d":
                         raw = e[3]
-                        expect[raw[6:12]] = raw
-                        delivered_total += 1
+                        if len(raw) >= 18 and raw[17] in (W.OP_PROBE, W.OP_TRAIN):
+                            # only emitted Probe/Train frames are observations (A's ACK may travel via B when B is the bridge)
+                            expect[raw[6:12]] = raw
+                            delivered_total += 1
                 if inp.out is None:
                     dead = True
                     break
@@ -130,6 +137,8 @@ def monitor(scn, sobj, rep, sf, ck):
             expect = {}
             listed = set()
     rep.count("frames_delivered", delivered_total)
+    if sobj.meta.get("b_is_bridge"):
+        rep.count("frames_delivered_to_the_mappers_bridge", delivered_total)
     rep.count("rounds", rounds)
     if delivered_total and len(rep.samples) < 2:
         rep.sample(dict(scenario=scn.sid, A=a.hex(), B=b.hex(), delivered=delivered_total, rounds=rounds))
@@ -146,3 +155,4 @@ def run(ctx):
     scns = make_scenarios(ctx, ctx.n(600, 15000))
     run_monitored(ctx, binary, scns, monitor, tag="peer")
     rep.need("frames_delivered", rep.counters.get("frames_delivered", 0), 1000)
+    rep.need("frames_delivered_to_the_mappers_bridge", rep.counters.get("frames_delivered_to_the_mappers_bridge", 0), 100)
